@@ -1362,6 +1362,17 @@ Qed.
 Lemma ncols_shape (M : @mat ROps) n p : shape n p M -> (0 < n)%nat -> ncols M = p.
 Proof. intros [HL HR] Hn. unfold ncols. rewrite hd_nth. apply HR. exact Hn. Qed.
 
+Lemma filter_true {A} (l : list A) : filter (fun _ => true) l = l.
+Proof. induction l; cbn; congruence. Qed.
+Lemma noreg_bound objs : Forall (fun i => (i < tp objs)%nat) (@noreg_index_list ROps objs).
+Proof.
+  unfold noreg_index_list. rewrite <- (filter_true objs) at 1. rewrite entries_idx.
+  apply Forall_forall. intros x Hx. apply in_flat_map in Hx. destruct Hx as [orr [Hin Hx]].
+  apply in_map_iff in Hin. destruct Hin as [k [<- Hk]]. apply idxs_In in Hk. destruct Hk as [Hk _].
+  unfold ent in Hx. cbn [fst snd] in Hx. destruct (has_reg (ob objs k)); [contradiction|].
+  apply in_seq in Hx. pose proof (off_bound objs k Hk). lia.
+Qed.
+
 Section Main.
   Variables (c : @convolver ROps) (noise : px -> R) (K : @kernel ROps) (nfs : list px) (objs : list (@lobj ROps)) (s : list R).
   Let n := length nfs.
@@ -1504,4 +1515,61 @@ Section Main.
     apply Gf_value; auto. unfold tagged in Tg. apply existsb_exists in Tg. destruct Tg as [t [Hin Ht]].
     apply tag_eqb_true in Ht. destruct (wt_blocks_ok t Hin) as [_ Hk]. rewrite Ht in Hk. exact Hk.
   Qed.
+
+  Lemma B_shape : shape n (tp objs) B.
+  Proof. unfold B. apply shape_op_matrix. exact Hsh. Qed.
+
+  (* after the mirror every entry is the normal-equation entry of the stacked operated matrix *)
+  Theorem mirrored_wt_is_normal a b : (a < tp objs)%nat -> (b < tp objs)%nat ->
+    shape (tp objs) (tp objs) (@F_wt_pre ROps c pre idx lens objs s) /\
+    mget (mirrored (@F_wt_pre ROps c pre idx lens objs s)) a b = Snorm B s n a b.
+  Proof.
+    intros Ha Hb. destruct (locate_exists objs a Ha) as (i & la & Hi & Hla & ->).
+    destruct (locate_exists objs b Hb) as (j & lb & Hj & Hlb & ->).
+    destruct (premirror_cell i j la lb Hi Hj Hla Hlb) as [S1 C1].
+    destruct (premirror_cell j i lb la Hj Hi Hlb Hla) as [_ C2].
+    split; [exact S1|].
+    apply (mirror_completes (tp objs) _ (Snorm B s n)); auto.
+    - apply Snorm_sym.
+    - rewrite C1. destruct (tagged i j); auto.
+    - rewrite C2. rewrite (Snorm_sym B s n (off objs j + lb)). destruct (tagged j i); auto.
+    - rewrite C1, C2. rewrite (Snorm_sym B s n (off objs j + lb)).
+      destruct (tagged_some i j Hi Hj) as [T|T]; rewrite T; auto.
+  Qed.
 End Main.
+
+(* InversionImagingWTilde.curvature_matrix on arbitrary native noise / pixel list (F_wt is the instance native m s / unmasked m) *)
+Definition F_wt_gen (c : @convolver ROps) (noise : px -> R) (K : @kernel ROps) (nfs : list px) (objs : list (@lobj ROps)) (s : list R) (eps : R) : @mat ROps :=
+  let '(pre, idx, lens) := @preload ROps noise K nfs in
+  let C := mirrored (@F_wt_pre ROps c pre idx lens objs s) in
+  let nr := @noreg_index_list ROps objs in
+  if negb (Nat.eqb (length nr) 0) then add_to_diag C eps nr else C.
+Lemma F_wt_is_gen c m K objs s eps : @F_wt ROps c m K objs s eps = F_wt_gen c (@native ROps m s) K (unmasked m) objs s eps.
+Proof. reflexivity. Qed.
+
+Theorem F_wt_eq_F_mapping (c : @convolver ROps) noise K nfs objs (s : list R) eps a b :
+  let n := length nfs in
+  (0 < n)%nat -> frames_ok c n -> (forall i, (i < n)%nat -> nth i s 0 <> 0) ->
+  W_is_overlap c s (@wt_dense ROps noise K nfs) n -> (forall o, In o objs -> wf_obj c n o) ->
+  (a < tp objs)%nat -> (b < tp objs)%nat ->
+  mget (F_wt_gen c noise K nfs objs s eps) a b = mget (@F_mapping ROps c objs n s eps) a b.
+Proof.
+  intros n Hn Hfr Hs HW Hwf Ha Hb.
+  pose proof (mirrored_wt_is_normal c noise K nfs objs s Hn Hfr Hs HW Hwf) as HM.
+  pose proof (B_shape c nfs objs Hwf) as HB. fold n in HB.
+  unfold F_wt_gen. rewrite (EP noise K nfs). cbv beta iota.
+  set (C := @F_wt_pre ROps c _ _ _ objs s) in *.
+  set (B := op_matrix c objs n) in *.
+  assert (HC : forall x y, (x < tp objs)%nat -> (y < tp objs)%nat -> mget (mirrored C) x y = Snorm B s n x y) by (intros; now apply HM).
+  assert (HSC : shape (tp objs) (tp objs) (mirrored C)) by (apply shape_mirrored; apply (HM a b Ha Hb)).
+  unfold F_mapping, curv_mapping. fold B.
+  assert (HncB : ncols B = tp objs) by (apply (ncols_shape B n); auto).
+  assert (HlB : length B = n) by (now destruct HB).
+  assert (HD : forall x y, (x < tp objs)%nat -> (y < tp objs)%nat -> mget (dotTN (div_rows B s) (div_rows B s)) x y = Snorm B s n x y).
+  { intros x y Hx Hy. rewrite dotTN_div_rows_Snorm; rewrite ?HlB, ?HncB; auto. }
+  assert (HSD : shape (tp objs) (tp objs) (dotTN (div_rows B s) (div_rows B s))).
+  { pose proof (shape_dotTN (div_rows B s) (div_rows B s)) as H. now rewrite ncols_div_rows, HncB in H. }
+  cbn [andb]. destruct (negb (Nat.eqb (length (@noreg_index_list ROps objs)) 0)).
+  - rewrite !(add_to_diag_spec (tp objs)) by (auto; apply noreg_bound). rewrite HC, HD by assumption. reflexivity.
+  - rewrite HC, HD by assumption. reflexivity.
+Qed.
